@@ -63,12 +63,16 @@ func (v *Vue) evalInclude(ctx VueContext, node *html.Node, vars map[string]any, 
 	// Identify the component's own v-once elements (the same IDs on every include of this component)
 	assignSeenAttrs(name, compDom)
 
+	// The component is processed in its own context, one level deeper in the inclusion chain.
+	// This also holds for a component whose first node is itself an include (handled by
+	// evalTemplate): otherwise that path never lengthens the chain and the depth limit cannot fire.
+	childCtx := ctx.WithTemplate(name)
+
 	// Validate and process template tag
-	processedDom, err := v.evalTemplate(ctx, compDom, ctx.stack.EnvMap(), depth+1)
+	processedDom, err := v.evalTemplate(childCtx, compDom, ctx.stack.EnvMap(), depth+1)
 	if err != nil {
 		return nil, fmt.Errorf("error in %s (included from %s): %w", name, ctx.FormatTemplateChain(), err)
 	}
 
-	childCtx := ctx.WithTemplate(name)
 	return v.evaluate(childCtx, processedDom, depth+1)
 }
